@@ -121,6 +121,8 @@ pub fn bcast_class(a: &[usize], b: &[usize]) -> &'static str {
 /// Unary-operator shape grid.
 pub fn unary_shapes(tier: Tier) -> Vec<Vec<usize>> {
     let mut v: Vec<Vec<usize>> = vec![vec![], vec![1], vec![3], vec![5], vec![2, 3], vec![3, 1], vec![2, 1, 3], vec![17], vec![2, 33], vec![0], vec![2, 0]];
+    // above the 32 Ki-element chunk of the parallel split in the unary operators
+    v.push(vec![2, 16390]);
     if tier.is_thorough() {
         v.extend(vec![vec![1, 2, 3, 2], vec![2, 3, 5, 1], vec![64], vec![3, 65], vec![2, 2, 2, 2], vec![100], vec![7, 19]]);
     }
